@@ -198,7 +198,7 @@ def rule_b(ctx):
     b, W, V, S = table_locals(F)
     kinds = sorted({(r[0], callee_method(r[2]) if r[0] in ("call", "mutcall") else "") for r in b.defs()[W]})
     nst = len([r for r in b.defs()[W] if r[0] == "stmt"])  # the shrink loop's single decrement (C06-C)
-    ctx.check(set(kinds) <= {("call", "collect"), ("mutcall", "index_mut"), ("stmt", "")} and ("call", "collect") in kinds and nst <= 1, "C06-B",
+    ctx.check(set(kinds) <= {("call", "collect"), ("call", "from_elem"), ("mutcall", "index_mut"), ("stmt", "")} and ("call", "collect") in kinds and nst <= 1, "C06-B",
               "into_rows(col_widths)", b.span, b.id, "the widths handed to into_rows are defined by %s" % kinds)
     ir = F.one("RenderTable::into_rows")
     ctx.check(len(F.call_sites(lambda cd, t: cd == ir.id)) == 1, "C06-B", "into_rows:single-caller", ir.span, ir.id, "")
